@@ -167,6 +167,12 @@ def check_route(rep, dbs):
             if f["dep"] or "body" not in f or f["n"] not in ROUTE_FUNCS:
                 continue
             inst = "%s | %s" % (db.label, f["full"][:150])
+            if f["n"] == "rlbox::rlbox_sandbox::INTERNAL_invoke_with_func_ptr":
+                # an argument that reaches the backend still in its application representation is converted by nothing at all (the
+                # backend's own call narrows it): same type-level rule as C11's, reported here as a route violation
+                from ..report import RuleView
+                from .c11 import check_arg_representation
+                check_arg_representation(RuleView(rep, {"R-C11-abi": "R-C06-route"}), db, f, inst)
             try:
                 ps = q.paths(db, f)
             except EngInconclusive:
